@@ -39,13 +39,16 @@ func (check typecheck) assignment(n *node, typ *itype, context string) error {
 		return n.cfgErrorf("invalid type in %s", context)
 	}
 	if n.typ.untyped {
+		// An untyped value assigned to an interface is first converted to its
+		// default type, which must then be assignable to the interface.
+		ctyp := typ
 		if typ == nil || isInterface(typ) {
 			if typ == nil && n.typ.cat == nilT {
 				return n.cfgErrorf("use of untyped nil in %s", context)
 			}
-			typ = n.typ.defaultType(n.rval, check.scope)
+			ctyp = n.typ.defaultType(n.rval, check.scope)
 		}
-		if err := check.convertUntyped(n, typ); err != nil {
+		if err := check.convertUntyped(n, ctyp); err != nil {
 			return err
 		}
 	}
